@@ -374,9 +374,11 @@ void FN(gm_ProcessEvent)(uint64_t me, double now, unsigned type, const void *con
 			mk.a = (uint8_t)(i & 1 ? 3 : 0);
 			do_mem(s, &mk);
 		}
-		if(s->goal == 0)
+		if(s->goal == 0 && g->post_goal == 0)
 			s->frozen = 1; /* predicate true at initialisation */
-		else {
+		else if(g->victim_nohb && me == 0 && g->n_lps > 1) {
+			/* no heartbeat: whether and when this LP reaches its goal depends on the others alone */
+		} else {
 			double t0 = g->t0_zero[me] ? 0.0 : (g->time_mode == 1 ? 1.0 : 0.25 + (double)(sm(&s->prng) >> 11) * 0x1p-53);
 			A(ScheduleNewEvent)(me, t0, GM_HB_TYPE, NULL, 0);
 		}
@@ -405,6 +407,7 @@ void FN(gm_ProcessEvent)(uint64_t me, double now, unsigned type, const void *con
 		rep->handled = s ? s->handled : 0;
 		rep->goal = s ? s->goal : 0;
 		rep->frozen = s ? s->frozen : 0;
+		rep->pred = s ? s->handled >= s->goal : 0;
 		rep->frozen_at = s ? s->frozen_at : -2.0;
 		return;
 	}
@@ -418,7 +421,7 @@ void FN(gm_ProcessEvent)(uint64_t me, double now, unsigned type, const void *con
 	s->hash = fold(fold(s->hash, dbits(now)), ((uint64_t)type << 32) | size);
 	s->hash = fold_bytes(s->hash, content, size);
 
-	if(type == GM_HB_TYPE && s->handled < s->goal) {
+	if(type == GM_HB_TYPE && s->handled < s->goal + g->post_goal) {
 		double d = g->time_mode == 1 ? 1.0 : 0.5 + (double)(sm(&s->prng) >> 11) * 0x1p-53;
 		if(g->hb_scale > 1)
 			d *= g->time_mode == 1 ? g->hb_scale : g->hb_scale * (0.2 + (double)(sm(&s->prng) >> 40) * 0x1p-23);
@@ -461,7 +464,7 @@ void FN(gm_ProcessEvent)(uint64_t me, double now, unsigned type, const void *con
 	}
 	if(g->stop_lp == (int32_t)me && g->stop_at == s->handled && !is_chain)
 		A(RootsimStop)();
-	if(s->handled >= s->goal) {
+	if(s->handled >= s->goal + g->post_goal) {
 		s->frozen = 1;
 		s->frozen_at = now;
 	}
@@ -471,5 +474,5 @@ bool FN(gm_CanEnd)(uint64_t me, const void *snapshot)
 {
 	(void)me;
 	const struct gm_state *s = snapshot;
-	return s && s->frozen;
+	return s && s->handled >= s->goal; /* monotone; with post_goal == 0 it coincides with the freeze */
 }
